@@ -37,6 +37,7 @@ func scenarioSyncFan(cfg config, r *hx.Rng) (rec, []mmRec) {
 			return
 		}
 		defer a.DB.Close()
+		c.tick(1) // setup progress is progress too: the watchdog must not fire while nodes and libp2p hosts are built
 		b, err := exh.New(exh.Options{N: nVal, GenesisTime: a.Opt.GenesisTime})
 		if err != nil {
 			c.fail("harness: node B: %v", err)
@@ -115,6 +116,7 @@ func scenarioSyncFan(cfg config, r *hx.Rng) (rec, []mmRec) {
 				c.fail("harness: connect: %v", err)
 				return false
 			}
+			c.tick(1)
 			return true
 		}
 		if !connect(connB) {
@@ -141,6 +143,7 @@ func scenarioSyncFan(cfg config, r *hx.Rng) (rec, []mmRec) {
 					c.fail("harness: block on B: %v %s", res.Err, res.Panic)
 					return
 				}
+				c.tick(1)
 			}
 			tip := b.Tip()
 			for i := 0; i < k; i++ {
